@@ -34,6 +34,8 @@ type Ev struct {
 	Ptr  any
 	Src  string // which schedule (RecSchedule.Name)
 	Pool int
+	// CtxDone (shoot-in, shoot-out): the context the gun was bound with (GunDeps.Ctx) was already done
+	CtxDone bool
 }
 
 // Log is the shared event log of a run.
@@ -170,7 +172,7 @@ func (g *Gun) Shoot(ammo core.Ammo) {
 	g.inShoot = true
 	k := g.shots
 	g.shots++
-	g.f.Log.Add(Ev{Kind: "shoot-in", Inst: g.inst, Ammo: ammo, N: k, Ptr: g})
+	g.f.Log.Add(Ev{Kind: "shoot-in", Inst: g.inst, Ammo: ammo, N: k, Ptr: g, CtxDone: g.deps.Ctx != nil && g.deps.Ctx.Err() != nil})
 	if g.f.Script.PanicInst == g.inst && g.f.Script.PanicShot == k {
 		g.inShoot = false
 		g.f.Log.Add(Ev{Kind: "shoot-panic", Inst: g.inst, N: k, Err: fmt.Sprintf("injected shot panic inst=%d shot=%d", g.inst, k)})
@@ -189,7 +191,7 @@ func (g *Gun) Shoot(ammo core.Ammo) {
 			g.aggr.Report(s)
 		}
 	}
-	g.f.Log.Add(Ev{Kind: "shoot-out", Inst: g.inst, Ammo: ammo, N: k, Ptr: g})
+	g.f.Log.Add(Ev{Kind: "shoot-out", Inst: g.inst, Ammo: ammo, N: k, Ptr: g, CtxDone: g.deps.Ctx != nil && g.deps.Ctx.Err() != nil})
 	g.inShoot = false
 }
 
